@@ -286,14 +286,19 @@ pub fn ddmin(mut bytes: Vec<u8>, fails: &dyn Fn(&[u8]) -> bool) -> Vec<u8> {
     bytes
 }
 
-/// Write a replay file pair (`.case` raw bytes, `.txt` pretty) and return the
-/// path of the `.case` file.
-pub fn write_replay(prop: &str, bytes: &[u8], pretty: &str) -> PathBuf {
+/// Write a replay file (`.json`: structured case + metadata, plus a `.txt`
+/// pretty print) and return the path of the `.json` file.
+pub fn write_replay(
+    prop: &str,
+    doc: &serde_json::Value,
+    pretty: &str,
+) -> PathBuf {
     let dir = PathBuf::from("/verif/replays");
     let _ = std::fs::create_dir_all(&dir);
-    let h = hash_bytes(bytes);
-    let p = dir.join(format!("{prop}-{h:016x}.case"));
-    let _ = std::fs::write(&p, bytes);
+    let txt = serde_json::to_string(doc).unwrap();
+    let h = hash_bytes(txt.as_bytes());
+    let p = dir.join(format!("{prop}-{h:016x}.json"));
+    let _ = std::fs::write(&p, serde_json::to_string_pretty(doc).unwrap());
     let _ = std::fs::write(p.with_extension("txt"), pretty);
     p
 }
